@@ -543,7 +543,7 @@ def jsonable_kwargs(kw):
 
 def unit_bed12_thick(U):
     rng = U.rng
-    N, R = (6, 24) if U.thorough else (4, 5)
+    N, R = (6, 12) if U.thorough else (4, 5)
     orders = ("ascending", "descending", "shuffled", "interleaved")
     fails, cases = [], 0
     distinct = set()
